@@ -6,7 +6,7 @@
 //!     max_qos(0..2), receive_max (v5; 0 = library default), topic_alias_max (v5),
 //!     max_receive (v3 limiter; 0 = unlimited), protocol_service_mode (0 = library default
 //!     protocol service, 1 = harness protocol service, gated), connect_session_expiry (v5: 0 = the CONNECT
-//!     asks for session expiry 0, else for 60 s)
+//!     asks for session expiry 0, else for 60 s), handle_qos_after_disconnect (v5: 0 = None, q + 1 = Some(q))
 //!   then one field per operation
 //!     1,tpl,args..   the peer writes one packet:
 //!        tpl 1 PUBLISH qos,id,topic_idx,alias,retain,payload_len
@@ -412,6 +412,10 @@ async fn server5(cfgf: &[u64], log: SLog, hg: Gates<u64>, pg: Gates<u64>) -> IoT
         cfg = cfg.set_max_receive(arg(cfgf, 1) as u16);
     }
     cfg = cfg.set_max_topic_alias(arg(cfgf, 2) as u16);
+    if arg(cfgf, 6) != 0 {
+        // publishes up to this QoS are still handed to the handler after the connection has been closed
+        cfg = cfg.set_handle_qos_after_disconnect(Some(qos_of(arg(cfgf, 6) - 1)));
+    }
     let cfg = conn::shared_cfg("I5", cfg);
 
     // the publish service is a v5::Router: resources "t1" and "t2" log the topic index of THEIR OWN resource
